@@ -31,12 +31,26 @@ COORD_TOL = 1e-9
 # --------------------------------------------------------------------------------------
 # running molli on a file
 # --------------------------------------------------------------------------------------
-class Parsed:
-    """everything observed from one CDXMLFile instance"""
+def edit_molecule(m):
+    """what a user does with a parsed molecule: move it, rename it, change and delete atoms"""
+    for step in (lambda: m.translate([1.0, -2.0, 3.0]), lambda: setattr(m, "name", "edited"),
+                 lambda: setattr(m.atoms[0], "formal_charge", (m.atoms[0].formal_charge or 0) + 1),
+                 lambda: setattr(m.atoms[0], "label", "edited"), lambda: m.del_atom(m.atoms[-1])):
+        try:
+            step()
+        except Exception:  # noqa: BLE001 - an edit that is not possible on this molecule is simply skipped
+            pass
 
-    def __init__(self, path):
+
+class Parsed:
+    """everything observed from one CDXMLFile instance.
+    `session=True`: a parse - edit - parse session on this ONE object: every fragment / label is requested, the
+    returned molecule is edited, and it is requested again; what is recorded is the SECOND answer."""
+
+    def __init__(self, path, session=False):
         from molli.ftypes.cdxml import CDXMLFile
 
+        self.aliased = []          # requests that handed out the very object of an earlier request
         with warnings.catch_warnings():
             warnings.simplefilter("ignore")
             self.cdxf = CDXMLFile(path)
@@ -46,14 +60,29 @@ class Parsed:
             for xf in self.cdxf.xfrags:
                 try:
                     m = self.cdxf._parse_fragment(xf)
+                    if session:
+                        edit_molecule(m)
+                        m2 = self.cdxf._parse_fragment(xf)
+                        if m2 is m:
+                            self.aliased.append("fragment " + str(xf.get("id")))
+                        m = m2
                     self.by_frag[xf.get("id")] = (L.canon_mol(m), m.coords.copy())
                 except SyntaxError:
                     self.by_frag[xf.get("id")] = ("err:syntax", None)
             self.resolved = {}     # key -> fragment id | "!"
             self.by_key = {}       # key -> (canon, coords, name)
-            for k in self.keys:
+            for pos, k in enumerate(self.keys):
                 try:
                     m = self.cdxf[k]
+                    if session:
+                        edit_molecule(m)
+                        m2 = self.cdxf[pos] if pos % 2 else self.cdxf[k]     # by label and by position
+                        if m2 is m:
+                            self.aliased.append("label " + repr(k))
+                        edit_molecule(m2)
+                        m = self.cdxf[k]
+                        if m is m2:
+                            self.aliased.append("label " + repr(k))
                     self.by_key[k] = (L.canon_mol(m), m.coords.copy(), m.name)
                 except SyntaxError:
                     self.by_key[k] = ("err:syntax", None, None)
@@ -83,7 +112,7 @@ def replay_of(source, variant, extra=None, text=None):
 # --------------------------------------------------------------------------------------
 # checks on one file (original or variant)
 # --------------------------------------------------------------------------------------
-def check_file(ctx, path, source, variant, text=None, want_stats=None):
+def check_file(ctx, path, source, variant, text=None, want_stats=None, session=None):
     """model tie + counts oracle + determinism for one CDXML file; returns (Drawing, Parsed)"""
     d = L.Drawing(path)
     p = Parsed(path)
@@ -171,16 +200,40 @@ def check_file(ctx, path, source, variant, text=None, want_stats=None):
                                   rp({"label": key}))
                 if not isinstance(kc[0], str) and kc[2] != key:
                     ctx.violation("C13:molecule-not-named-after-label", f"{source} [{variant}]: CDXMLFile[{key!r}].name == {kc[2]!r}", rp({"label": key}))
-    # (c) determinism: a second, independent parse
-    p2 = Parsed(path)
+    # (c) determinism: a second, independent CDXMLFile object, used in a parse - edit - parse session: every fragment
+    #     and every label is requested, the returned molecule is edited (moved, renamed, atoms changed and deleted) and
+    #     requested again (labels: by position and by label, three times); the LAST answer must be the fresh parse
+    if session is None:      # quick tier: sessions on the drawings as bundled / generated and their mirror images
+        session = (not ctx.quick()) or variant in ("original", "mirror")
+    if not session:
+        return d, p
+    p2 = Parsed(path, session=True)
+    ctx.count("sessions:parse-edit-parse", len(p2.by_frag) + len(p2.by_key))
+    for what in p2.aliased[:1]:
+        ctx.violation("C13:session:same-object-handed-out-twice", f"{source} [{variant}] {what}: a later request returned the object of an earlier request",
+                      rp({"what": what}))
     for fid, (c1, x1) in p.by_frag.items():
         c2, x2 = p2.by_frag.get(fid, ("missing", None))
         if L.same_constitution(c1, c2) is not None:
-            ctx.violation("C13:nondeterministic-constitution", f"{source} [{variant}] fragment {fid}: two parses differ", rp({"fragment": fid}))
+            ctx.violation("C13:nondeterministic-constitution",
+                          f"{source} [{variant}] fragment {fid}: parsing it again after the first result was edited differs from a fresh parse: "
+                          f"{L.same_constitution(c1, c2)}", rp({"fragment": fid, "session": True}))
         elif x1 is not None and not coords_equal(x1, x2):
             ctx.violation("C13:nondeterministic-coordinates",
                           f"{source} [{variant}] fragment {fid}: two parses give different coordinates (max dev {max_dev(x1, x2):.3g})",
-                          rp({"fragment": fid}))
+                          rp({"fragment": fid, "session": True}))
+    for k, (c1, x1, n1) in p.by_key.items():
+        c2, x2, n2 = p2.by_key.get(k, ("missing", None, None))
+        diff = L.same_constitution(c1, c2)
+        if diff is None and not isinstance(c1, str):
+            if n1 != n2:
+                diff = f"name {n2!r} instead of {n1!r}"
+            elif not coords_equal(x1, x2):
+                diff = f"coordinates differ by up to {max_dev(x1, x2):.3g}"
+        if diff is not None:
+            ctx.violation("C13:session:label-parsed-again-differs",
+                          f"{source} [{variant}] CDXMLFile[{k!r}] requested again on the same object, after the first result was edited, "
+                          f"differs from a fresh parse: {diff}", rp({"label": k, "session": True}))
     if p.resolved != p2.resolved:
         ctx.violation("C13:nondeterministic-label-resolution", f"{source} [{variant}]: two parses resolve labels differently", rp())
     return d, p
@@ -250,24 +303,68 @@ def oracle_counts(ctx, c, dc, rp):
 # --------------------------------------------------------------------------------------
 # variants
 # --------------------------------------------------------------------------------------
-def compare_variant(ctx, source, vname, base, var, id_labels=False, text=None):
-    """constitution per fragment and label -> fragment are the same in the variant (fragment ids are kept)"""
+def compare_variant(ctx, source, vname, base, var, id_labels=False, text=None, id_offset=0):
+    """the variant is the SAME drawing: per fragment (fragment ids are kept) the constitution — node by node through
+    the node ids — and the HANDEDNESS of every non-planar centre (same sign for the same centre and the same ordered
+    neighbours, identified by node id) are unchanged; labels resolve to the same fragment"""
     (d0, p0), (d1, p1) = base, var
-    for fid, (c0, _) in p0.by_frag.items():
-        c1 = p1.by_frag.get(fid, ("missing", None))[0]
-        if id_labels:
-            c0, c1 = L.strip_id_labels(c0, True), L.strip_id_labels(c1, True)
-        diff = L.same_constitution(c0, c1)
+    kind = vname.split(":")[0]
+    hand = []      # (fid, id-quads, coords0, index-quads0, coords1, index-quads1)
+    for f0 in d0.frags:
+        fid = f0["id"]
+        c0, x0 = p0.by_frag.get(fid, ("missing", None))
+        c1, x1 = p1.by_frag.get(fid, ("missing", None))
+        f1 = d1.frag_by_id(fid)
+        ids0 = L.atom_node_ids(f0["elt"]) if not isinstance(c0, str) else None
+        ids1 = L.atom_node_ids(f1["elt"]) if f1 is not None and not isinstance(c1, str) else None
+        ok_ids = (ids0 is not None and ids1 is not None and len(ids0) == len(c0["atoms"]) and len(ids1) == len(c1["atoms"])
+                  and len({i for i, _ in ids0}) == len(ids0))
+        if ok_ids:
+            i0 = [i for i, _ in ids0]
+            i1 = [str(int(i) - id_offset) if id_offset else i for i, _ in ids1]
+            ok_ids = sorted(i0) == sorted(i1)
+        if ok_ids:
+            a, b = L.constitution_by_id(c0, i0), L.constitution_by_id(c1, i1)
+            diff = None if a == b else next((f"{k}: {a[k]} vs {b[k]}"[:300] for k in ("charge", "mult", "ap", "bonds", "atoms") if a[k] != b[k]), "?")
+        else:
+            ctx.count("variants:fragments-compared-by-position")
+            if id_labels:
+                c0, c1 = L.strip_id_labels(c0, True), L.strip_id_labels(c1, True)
+            diff = L.same_constitution(c0, c1) if kind != "reorder" else None
         if diff:
-            ctx.violation(f"C13:{vname.split(':')[0]}:constitution-changed",
+            ctx.violation(f"C13:{kind}:constitution-changed",
                           f"{source} [{vname}] fragment {fid}: constitution differs from the original drawing: {diff}",
                           replay_of(source, vname, {"fragment": fid}, text))
+            continue
+        if ok_ids and x0 is not None and x1 is not None:
+            quads0 = L.centres(None, c0)
+            if quads0:
+                pos1 = {nid: k for k, nid in enumerate(i1)}
+                quads1 = [tuple(pos1[i0[a]] for a in q) for q in quads0]
+                hand.append((fid, [tuple(i0[a] for a in q) for q in quads0], x0, quads0, x1, quads1))
+    if hand:
+        outs = ctx.driver([L.encode_orient(x, q) for (_, _, x0, q0, x1, q1) in hand for (x, q) in ((x0, q0), (x1, q1))])
+        for k, (fid, idq, x0, q0, x1, q1) in enumerate(hand):
+            s0, s1 = outs[2 * k].split(","), outs[2 * k + 1].split(",")
+            nonplanar = sum(1 for s_ in s0 if s_ != "0")
+            ctx.case(f"same-handedness:{source}:{vname}:{fid}", nontrivial=nonplanar > 0)
+            ctx.count(f"variants:{kind}:centre-triples", len(q0))
+            ctx.count(f"variants:{kind}:nonplanar-centre-triples", nonplanar)
+            bad = [(q, a, b) for q, a, b in zip(idq, s0, s1) if a != b]
+            if bad:
+                q, a, b = bad[0]
+                ctx.violation(f"C13:{kind}:handedness-changed",
+                              f"{source} [{vname}] fragment {fid}: the centre drawn as node {q[0]} with neighbour nodes {list(q[1:])} has "
+                              f"handedness {a} in the original and {b} in the same drawing written in another order "
+                              f"({len(bad)} of {len(idq)} centre triples differ)",
+                              replay_of(source, vname, {"fragment": fid, "centre_node": q[0], "neighbour_nodes": list(q[1:]),
+                                                        "original": a, "variant_sign": b}, text))
     for lab in d0.labels:
         k = lab["key"]
         if not L.distinct_distances(d0, lab) or k in d0.dup_keys:
             continue      # (a key drawn twice: which one is "the first" depends on the document order)
         if p0.resolved.get(k) != p1.resolved.get(k):
-            ctx.violation(f"C13:{vname.split(':')[0]}:label-resolves-differently",
+            ctx.violation(f"C13:{kind}:label-resolves-differently",
                           f"{source} [{vname}]: label {k!r} resolves to {p1.resolved.get(k)} instead of {p0.resolved.get(k)}",
                           replay_of(source, vname, {"label": k}, text))
 
@@ -494,7 +591,8 @@ def run(ctx):
                 "the mirror test [non-trivial = at least one non-planar centre triple]. Files: every bundled *.cdxml, synthetic "
                 "drawings (random node/bond attribute families incl. nested, hapto and malformed records; random label "
                 "placements incl. grouped labels above their fragment), and for each the variants mirror / permute / translate / "
-                "renumber. Distinct by (source, variant, fragment or label).")
+                "renumber / reorder (nodes shuffled, bonds from the other end), compared node by node incl. handedness; every "
+                "fragment and label also in a parse-edit-parse session on one CDXMLFile object. Distinct by (source, variant, fragment or label).")
     ctx.assumptions += [
         "C13 partial: the 3-D embedding heuristic (_cdxml_3dify_, mean plane by SVD, join geometry) is not modelled; its effect is "
         f"checked per drawing with the exact predicate `orient` (threshold {L.EPS} on 6 x signed volume) on the returned floats",
@@ -546,6 +644,13 @@ def run(ctx):
                 smp = L.variant_mirror(sb[0], work / f"{stem}_restereo_mirror.cdxml")
                 sm = check_file(ctx, smp, source, tag + ":mirror", smp.read_text())
                 mirror_check(ctx, source + ":" + tag, sb, sm, text=sp.read_text())
+        # the same drawing written in another order (nodes shuffled, bonds written from the other end): same
+        # constitution and same handedness node by node — every stereo-bearing drawing in both tiers
+        if has_stereo or not source.startswith("repo:") or not ctx.quick():
+            for r in range(1 if ctx.quick() else 3):
+                op = L.variant_reorder(d0, work / f"{stem}_reorder.cdxml", rng)
+                compare_variant(ctx, source, f"reorder:{r}", base, check_file(ctx, op, source, f"reorder:{r}", op.read_text()),
+                                text=op.read_text())
         # page-level variants; the quick tier gives every bundled drawing ONE of them (rotating with the seed), small
         # drawings (corpus, synthetic) and the thorough tier all three
         small = not source.startswith("repo:")
@@ -562,7 +667,8 @@ def run(ctx):
             off = rng.choice([100000, 250000, 7000000])
             rp_ = L.variant_renumber(d0, work / f"{stem}_renumber.cdxml", off)
             compare_variant(ctx, source, f"renumber:{off}", base,
-                            check_file(ctx, rp_, source, f"renumber:{off}", rp_.read_text()), id_labels=True, text=rp_.read_text())
+                            check_file(ctx, rp_, source, f"renumber:{off}", rp_.read_text()), id_labels=True, text=rp_.read_text(),
+                            id_offset=off)
         for f in work.glob(f"{stem}_*.cdxml"):
             f.unlink()
 
@@ -595,6 +701,32 @@ def replay(ctx, path):
         files = [("drawing", p), ("stereo marks mirrored", L.variant_mirror(L.Drawing(p), work / "replay_mirror.cdxml"))]
     elif src.startswith("repo:") and "cdxml_text" not in r and str(r.get("variant")) == "mirror":
         files = [("stereo marks mirrored", L.variant_mirror(L.Drawing(p), work / "replay_mirror.cdxml"))]
+    if r.get("session"):
+        fresh, sess = Parsed(p), Parsed(p, session=True)
+        if "label" in r:
+            k = r["label"]
+            print(f"fresh CDXMLFile[{k!r}]           :", str(fresh.by_key.get(k, ('missing',))[0])[:300])
+            print(f"requested again after an edit :", str(sess.by_key.get(k, ('missing',))[0])[:300], "| name", sess.by_key.get(k, (0, 0, None))[2])
+        if "fragment" in r:
+            f_ = r["fragment"]
+            print("fresh parse of the fragment   :", str(fresh.by_frag.get(f_, ('missing',))[0])[:300])
+            print("parsed again after an edit    :", str(sess.by_frag.get(f_, ('missing',))[0])[:300])
+        return 0
+    if "centre_node" in r and "cdxml_text" in r and src.split(":")[0] in ("repo", "corpus"):
+        from harness.common import VERIF
+
+        base = (REPO / src.split(":")[1]) if src.startswith("repo:") else (VERIF / "corpus" / "C13" / src.split(":")[1])
+        ids_q = [r["centre_node"]] + r["neighbour_nodes"]
+        for what, fp in (("drawing as bundled", base), ("same drawing, other order", p)):
+            d_ = L.Drawing(fp)
+            pr_ = Parsed(fp)
+            fr = d_.frag_by_id(r["fragment"])
+            ids = [str(int(i) - int(str(r.get("variant")).split(":")[1])) if str(r.get("variant")).startswith("renumber") and what != "drawing as bundled" else i
+                   for i, _ in L.atom_node_ids(fr["elt"])]
+            q = tuple(ids.index(i) for i in ids_q)
+            print(f"[{what}] handedness at node {ids_q[0]} (neighbour nodes {ids_q[1:]}):",
+                  ctx.driver([L.encode_orient(pr_.by_frag[r['fragment']][1], [q])])[0])
+        return 0
     for what, fp in files:
         pr = Parsed(fp)
         if "fragment" in r:
